@@ -488,13 +488,13 @@ def arr(tree, hk, sym, unit, dtype="float64", shape=(3,), contiguous=True):
     return ev.instantiate(ci, [], {"values": RawV(Poly.sym(sym), dtype, shape, contiguous) if isinstance(sym, str) else sym, "unit": unit}, None)
 
 
-def vec(tree, hk, tag, unit, n=3, dtypes=None):
+def vec(tree, hk, tag, unit, n=3, dtypes=None, shape=(3,)):
     vi = tree.cls(VECTOR_Q)
     if dtypes:
         # built from raw buffers and a unit (the loader's way): every component wraps the buffer it is given, whatever its dtype
         raw = {c: RawV(Poly.sym(tag + c), dtypes.get(c, "float64")) for c in "xyz"[:n]}
         return ModelEval(tree, tree.method(vi, "__init__"), {}, hk).instantiate(vi, [], dict(raw, unit=unit), None)
-    comps = {c: arr(tree, hk, tag + c, unit, dtype=(dtypes or {}).get(c, "float64")) for c in "xyz"[:n]}
+    comps = {c: arr(tree, hk, tag + c, unit, dtype=(dtypes or {}).get(c, "float64"), shape=shape) for c in "xyz"[:n]}
     return ModelEval(tree, tree.method(vi, "__init__"), {}, hk).instantiate(vi, [], dict(comps), None)
 
 
@@ -799,6 +799,24 @@ def check_numpy_stack(run, tree, only=None):
             run.ob(construct, ok, wn.where(), detail, "the product of n lengths is labelled as a length")
         except ERR as e:
             run.unresolved(construct, wn.where(), "cannot fold: %s" % e)
+    for uf in ("add", "subtract", "multiply"):
+        construct = ARRAY_Q + "[np.%s(a [m], b [m], out=buf [s])]" % uf
+        try:
+            hk = stack_hooks(tree)
+            a, b, buf = arr(tree, hk, "A", "m"), arr(tree, hk, "B", "m"), arr(tree, hk, "Z", "s")
+            B_ = rat(Poly.sym("B"))
+            want = {"add": (A + B_) * km, "subtract": (A - B_) * km, "multiply": A * B_ * km * km}[uf]
+            before = (buf._attrs["_array"].r, buf._attrs["_unit"])
+            try:
+                r = hk["ext"]["numpy." + uf](a, b, out=buf)
+                ok = r is buf and phys(buf) == want
+                detail = "returns %s; out denotes %r (required %r)" % ("out" if r is buf else "another object", phys(buf), want)
+            except (Raised, ProgramRaised) as e:
+                ok = (buf._attrs["_array"].r, buf._attrs["_unit"]) == before
+                detail = "refused (%s); out %s" % (getattr(e, "name", e), "untouched" if ok else "already overwritten")
+            run.ob(construct, ok, wn.where(), detail, "numpy writes metres into out but out keeps the unit it had (seconds): the unit is taken from the output buffer instead of the operands")
+        except ERR as e:
+            run.unresolved(construct, wn.where(), "cannot fold: %s" % e)
     for fn in ("cumsum", "sum"):
         construct = ARRAY_Q + "[np.%s(a [m], out=buf [s])]" % fn
         try:
@@ -907,6 +925,48 @@ def check_to_stack(run, tree, only=None):
                    'x.to("") returns x unconverted (an empty target taken for "no target"): percent stays percent, a length is accepted as dimensionless')
         except ERR as e:
             run.unresolved(construct, to.where(), "cannot fold: %s" % e)
+    # Vectors of every shape and size: single (0-d) and empty Vectors keep all their components; a conversion into the unit the Vector
+    # already has gives a result whose LABEL is its own (relabelling it does not relabel the original)
+    vi_ = tree.cls(VECTOR_Q)
+    vto_ = tree.method(vi_, "to")
+    for label, shape, n in (("a single (0-d) 3-component Vector", (), 3), ("a single 2-component Vector", (), 2), ("an empty Vector", (0,), 3)) if only is None else ():
+        construct = "%s.to[%s, m -> cm]" % (VECTOR_Q, label)
+        try:
+            hk = stack_hooks(tree)
+            v = vec(tree, hk, "V", "m", n=n, shape=shape)
+            want = {c: phys(a) for c, a in comps_of(tree, hk, v).items()}
+            try:
+                r = ModelEval(tree, vto_, {}, hk).invoke(vto_, [v, "cm"], {}, None)
+                got = {c: (phys(a), a._attrs.get("_unit")) for c, a in comps_of(tree, hk, r).items()} if isinstance(r, PyObj) else r
+                ok = isinstance(got, dict) and set(got) == set(want) and all(got[c][0] == want[c] and got[c][1] == UU.parse("cm") for c in want)
+                detail = "components %s (required %s, each the same quantity in cm)" % (sorted(got) if isinstance(got, dict) else got, sorted(want))
+            except (Raised, ProgramRaised) as e:
+                ok, detail = False, "raises %s" % e
+            run.ob(construct, ok, vto_.where(), detail, "a scalar or empty Vector loses its y and z components in .to() (components tested for truth: an Array of length 0 is falsy)")
+        except ERR as e:
+            run.unresolved(construct, vto_.where(), "cannot fold: %s" % e)
+    if only is None:
+        construct = "%s.to[history: w = v.to(<the unit v has>); w.unit = 'cm'; v keeps its label]" % VECTOR_Q
+        try:
+            hk = stack_hooks(tree)
+            v = vec(tree, hk, "V", "m")
+            pv = {c: phys(a) for c, a in comps_of(tree, hk, v).items()}
+            try:
+                w = ModelEval(tree, vto_, {}, hk).invoke(vto_, [v, "m"], {}, None)
+                ev_ = ModelEval(tree, vto_, {}, hk)
+                names_before = {c: a._attrs.get("name") for c, a in comps_of(tree, hk, v).items()}
+                if w is not v:
+                    ev_.obj_setattr(w, "unit", "cm")
+                    ev_.obj_setattr(w, "name", "renamed")
+                units_v = {c: a._attrs.get("_unit") for c, a in comps_of(tree, hk, v).items()}
+                names_after = {c: a._attrs.get("name") for c, a in comps_of(tree, hk, v).items()}
+                ok = w is v or (all(u == UU.parse("m") for u in units_v.values()) and names_after == names_before)
+                detail = "after relabelling / renaming the result, v is labelled %r and its components are named %r (required m and %r)" % (units_v, names_after, names_before)
+            except (Raised, ProgramRaised) as e:
+                ok, detail = False, "raises %s" % e
+            run.ob(construct, ok, vto_.where(), detail, "v.to(<same unit>) hands out the component Array OBJECTS of v: relabelling or renaming the result changes v")
+        except ERR as e:
+            run.unresolved(construct, vto_.where(), "cannot fold: %s" % e)
     # equal size, different unit (ratio exactly 1): k_deg := k_rad is not available symbolically; use an alias base with the same scale
     construct = ARRAY_Q + ".to[history: convert, change the buffer in place, convert again]"
     try:
@@ -1327,7 +1387,7 @@ _CMP_KIND = {"<": "lt", "==": "eq", "!=": "ne", "<=": "le", ">": "gt", ">=": "ge
 def array_history_steps(level="quick", family="arith"):
     """(probes, mutators): a probe is a pure operation whose result is checked; a mutator changes state between two probes"""
     xs = ("a", "b")
-    ys = ("a", "b", "c", "q", "zero", "two") if level != "quick" else ("a", "b", "c", "q", "zero")
+    ys = ("a", "b", "c", "q", "zero", "two", "z0") if level != "quick" else ("a", "b", "c", "q", "zero", "z0")
     if family == "compare":
         pure = tuple(p for p in HIST_PURE if p[0] in _CMP_KIND and (level != "quick" or p[0] in ("<", ">=", "==", "!=")))
     else:
@@ -1358,7 +1418,8 @@ def check_array_history_space(run, tree, level="quick", family="arith"):
 
     def fresh():
         hk = stack_hooks(tree)
-        objs = {"a": arr(tree, hk, "A", "m"), "b": arr(tree, hk, "B", "cm"), "c": arr(tree, hk, "C", "s"), "q": QQ(RawV(Poly.sym("Q")), UU.parse("cm")), "zero": 0, "two": 2.0}
+        objs = {"a": arr(tree, hk, "A", "m"), "b": arr(tree, hk, "B", "cm"), "c": arr(tree, hk, "C", "s"), "q": QQ(RawV(Poly.sym("Q")), UU.parse("cm")), "zero": 0, "two": 2.0,
+                "z0": arr(tree, hk, "Z", "cm", shape=())}          # a 0-d Array: falsy under len(), a scalar for numpy
         ref = {n: _Ref(ref_of(o)[0], ref_of(o)[1]) for n, o in objs.items()}
         return hk, objs, ref
 
